@@ -396,6 +396,11 @@ class Ctx:
             self.journal.append((arr, arr.fn, arr.shape, arr.kind))
         if fn is not None:
             arr.fn = fn
+            src = getattr(arr, "src", None)
+            if src is not None and getattr(arr, "multi", None) is not None and shape is None:
+                # arr is A.ravel(): numpy returns a VIEW for a contiguous array, so an in-place change of the raveled
+                # array is a change of A itself (the packed multi-index is handed through)
+                self.set_arr(src, fn=lambda *idx, _f=fn: _f(tuple(idx)))
         if shape is not None:
             arr.shape = tuple(shape)
         if kind is not None:
